@@ -90,8 +90,13 @@ func (c *Ctx) cod7Flags() {
 			if _, isConst := stripConv(st.Val).(*ssa.Const); isConst {
 				continue
 			}
-			switch stripConv(st.Val).(type) {
+			switch x := stripConv(st.Val).(type) {
 			case *ssa.Phi, *ssa.BinOp, *ssa.Parameter, *ssa.Extract:
+			case *ssa.Call:
+				// the result of a helper introduced later (flags.headerByte())
+				if f := x.Call.StaticCallee(); f == nil || !c.isNewHelper(f) {
+					continue
+				}
 			default:
 				continue
 			}
